@@ -109,7 +109,7 @@ theorem wellFormed_accepted (s : Summary) (rules : List CoreRule) (hr : Reaches 
   refine ⟨rules, hd, ?_, ?_, ?_, ?_, ?_⟩
   · exact (hirRules_ok_iff s.decls rules).2 ⟨h.declared, h.aggBound, h.fresh⟩
   · exact configCheck_of h.attrsKnown h.attrsPlain h.parOnly h.progDs
-  · exact declsCheck_of s.decls h.declDs
+  · exact declsCheck_of s.effDecls h.declDs
   · exact (sigCheck_ok_iff s.sig).2 h.sigOk
   · cases hs : stratError (skeleton s.decls rules) with
     | false => rfl
